@@ -114,7 +114,11 @@ pub enum Case {
 }
 
 fn strings(rng: &mut Rng) -> String {
-    match rng.below(8) {
+    match rng.below(12) {
+        8 => (*rng.pick(&["1234", "00", "cafe", "DEADBEEF", "20240131", "0", "0x1234", "ff", "AbCd", "1e10", "true", "null"])).to_string(),
+        9 => format!("{:016x}{:016x}{:016x}{:016x}", rng.next(), rng.next(), rng.next(), rng.next()),
+        10 => (*rng.pick(&[" ", "  leading and trailing  ", "\t", "a\nb", "%s%n", "$HOME", "~", ".", "..", "/", "aGVsbG8=", "a=b", "--", "-"])).to_string(),
+        11 => format!("{}", rng.below(1_000_000)),
         0 => String::new(),
         1 => "TEST SEED".into(),
         2 => "App X".into(),
@@ -175,6 +179,26 @@ fn read_pair(dir: &Path, base: &str) -> Result<([u8; 32], [u8; 32], Vec<u8>, Str
     Ok((priv_der[16..].try_into().unwrap(), der[12..].try_into().unwrap(), priv_der, pub_pem))
 }
 
+/// older content at an output path: a PEM private key (119 bytes) or arbitrary longer bytes, and a longer public file
+fn preexisting(dir: &Path, base: &str, salt: u64) {
+    let mut rng = Rng::new(salt ^ 0x01D);
+    let old_priv: Vec<u8> = if rng.chance(1, 2) {
+        let mut der = PRIV_X.to_vec();
+        der.extend_from_slice(&rng.array32());
+        pem("PRIVATE KEY", &der, 64, "\n", true).into_bytes()
+    } else {
+        let n = 49 + rng.usize_below(300);
+        rng.bytes(n)
+    };
+    let _ = std::fs::write(dir.join(base), old_priv);
+    let mut old_pub = String::from("-----BEGIN PUBLIC KEY-----\n");
+    for _ in 0..1 + rng.usize_below(4) {
+        old_pub.push_str("T0xEIE9MRCBPTEQgT0xEIE9MRCBPTEQgT0xEIE9MRCBPTEQgT0xEIE9MRCBPTEQg\n");
+    }
+    old_pub.push_str("-----END PUBLIC KEY-----\n");
+    let _ = std::fs::write(dir.join(format!("{base}.pub")), old_pub);
+}
+
 fn check_pair(stored: &[u8; 32], public: &[u8; 32], expected_secret: &[u8; 32]) -> Result<(), String> {
     if stored != expected_secret && *stored != clamp(*expected_secret) {
         return Err("private key differs from the documented algorithm".into());
@@ -198,6 +222,8 @@ pub fn run_case(ctx: &mut Ctx, c: &Case) {
             ctx.count("keygen");
             let sarg = format!("--seed={seed}");
             run_mlar(&dir, &["keygen", &sarg, "k1"])?;
+            // the second output path already holds older, longer files
+            preexisting(&dir, "k2", model::prng::fnv(seed.as_bytes()));
             run_mlar(&dir, &["keygen", &sarg, "k2"])?;
             let (stored, public, der1, pem1) = read_pair(&dir, "k1")?;
             let (_, _, der2, pem2) = read_pair(&dir, "k2")?;
@@ -237,6 +263,7 @@ pub fn run_case(ctx: &mut Ctx, c: &Case) {
                 args.push(p);
             }
             run_mlar(&dir, &args)?;
+            preexisting(&dir, "child_again", model::prng::fnv(parent_seed.as_bytes()));
             run_mlar(&dir, &{
                 let mut a = args.clone();
                 a[2] = "child_again";
